@@ -673,6 +673,11 @@ def witnesses():
     return w
 
 
+# witnesses that are genuine defects (reported through known_findings.json while they still fail);
+# the others document preconditions of the theorems and are only recorded in the evidence
+FINDINGS = {'section-in-two-memories', 'relink-absolute-symbol', 'sectiondata-before-relocation'}
+
+
 def run_witnesses(ctx):
     """re-execute the witnesses of the hypotheses the theorems need; report while they still fail"""
     res = {}
@@ -691,7 +696,7 @@ def run_witnesses(ctx):
         else:
             still = pred(run_impl(case))
         res[wid] = still
-        if still:
+        if still and wid in FINDINGS:
             ctx.violation({'fn': 'link', 'key': 'witness:' + wid, 'witness': wid, 'what': what, 'case': case,
                            'how_to_replay': replay_cmd(case)})
     # W5: SectionData copies are taken before relocation
